@@ -5,6 +5,7 @@
 set -u
 src="$1"; suite="${2:-}"
 name=$(echo "$src" | sed 's#/$##; s#.*/\([^/]*\)/\([^/]*\)$#\1_\2#')
+name="${NAMEPREFIX:-}$name"
 wt=/tmp/sv_$name
 log=/tmp/seedverify/$name.log
 mkdir -p /tmp/seedverify
